@@ -20,7 +20,7 @@ pub fn checks() -> Vec<Check> {
         id: "C50",
         title: "AutoNAT servers dial back only the requester's observed IP",
         level: Level::Exploration,
-        rule: "A real autonat::Behaviour (v1; only_global_ips off because the simulated network is 10.0.0.0/24; throttle limits per peer 1..3, global 1..4, period 10..70 s; max_peer_addresses 1..8) serves 2..4 scripted clients that listen for the dial-back. Requests carry 1..5 addresses from a menu: honest, another client's IP, a public IP, several IP components, DNS names before/after the IP, relay (/p2p-circuit) paths, a foreign /p2p suffix, the requester's /p2p in the middle; the peer id field is the sender's or someone else's; connections (the client's or a dial-back in progress) are reset at seeded moments (fault transport_reset) and clients re-dial. Every address the server's transport is asked to dial (recorded in the simulated transport) must have all its ip4/ip6 components equal to the IP the server observed for the requester, contain no p2p-circuit and end with /p2p/<requester>; the addresses announced in InboundProbeEvent::Request obey the same IP/relay rule. Folding the probe events: never two probes in progress for one peer, per-peer and global numbers of accepted probes inside any throttle period within the limits. Non-trivial = at least one dial-back happened and one request was refused",
+        rule: "A real autonat::Behaviour (v1; only_global_ips off because the simulated network is 10.0.0.0/24; throttle limits per peer 1..3, global 1..4, period 10..70 s; max_peer_addresses 1..8) serves 2..4 scripted clients that listen for the dial-back. Requests carry 1..5 addresses from a menu: honest, another client's IP, a public IP, several IP components, DNS names before/after the IP, relay (/p2p-circuit) paths, a foreign /p2p suffix, the requester's /p2p in the middle; the peer id field is the sender's or someone else's; connections (the client's or a dial-back in progress) are reset at seeded moments (fault transport_reset) and clients re-dial. Every address the server's transport is asked to dial (recorded in the simulated transport) must have all its ip4/ip6 components equal to the IP the server observed for the requester, contain no p2p-circuit and end with /p2p/<requester>; the addresses announced in InboundProbeEvent::Request obey the same IP/relay rule. Some clients are slow to reach (the dial-back stays in flight for seconds) and some requests are abandoned by the client right after writing. Never two dial-backs to one peer in flight at the transport unless a connection reset intervened; folding the probe events: never two probes in progress for one peer, per-peer and global numbers of accepted probes inside any throttle period within the limits. Non-trivial = at least one dial-back happened and one request was refused",
         assumptions: &["security/muxing stubbed (E2 stack); the observed address is the simulated transport's send-back address of the client's connection"],
         real: &["autonat v1 Behaviour (server role) incl. its request-response behaviour, handler and codec", "Swarm dialing (DialOpts, address translation)"],
         stub: &["transport/security/muxer -> SimTransport/SimMuxer", "AutoNAT clients -> scripted frames", "clock -> virtual"],
@@ -96,6 +96,14 @@ fn autonat_server() -> SimResult {
         })
         .collect();
     run_until_idle();
+    // some clients are slow to reach: a dial-back to them stays in flight for seconds
+    for c in &clients {
+        if choose(2) == 0 {
+            net::script(&c.node.addr(), net::Script::OkAfter(Duration::from_secs(1 + choose(12) as u64)));
+            probe("slow-dial-back-target");
+        }
+    }
+    let mut resets: Vec<u64> = vec![]; // event sequence numbers of connection resets (requests in flight may legitimately die with them)
     for c in &clients {
         c.node.dial_new(speer, saddr.clone());
     }
@@ -104,7 +112,7 @@ fn autonat_server() -> SimResult {
 
     let mut tag = 0u64;
     let mut accepted: Vec<(Duration, PeerId)> = vec![]; // accepted probes (Request events)
-    let mut ongoing: BTreeMap<PeerId, u32> = BTreeMap::new();
+    let mut ongoing: BTreeMap<PeerId, std::collections::BTreeSet<String>> = BTreeMap::new(); // probe ids in progress
     let mut dials_seen = 0usize;
     let (mut dialbacks, mut refused) = (0u32, 0u32);
     let mut pending: Vec<u64> = vec![];
@@ -119,6 +127,7 @@ fn autonat_server() -> SimResult {
                     let n = net::conn_count();
                     if n > 0 {
                         net::reset_conn(choose(n));
+                        resets.push(next_seq());
                     }
                     settle(Duration::from_millis(5));
                 }
@@ -158,8 +167,14 @@ fn autonat_server() -> SimResult {
                 }
                 let claimed = if choose(8) == 0 { other.node.peer } else { me.node.peer };
                 tag += 1;
-                me.node.with(|b| b.open(speer, None, OpenReq { tag, proto: PROTO.into(), send: vec![dial_request(&claimed, &addrs)], read: 1, after: After::Close }));
-                pending.push(tag);
+                // an impatient client drops the stream right after writing: the server's answer (or refusal) cannot be written
+                let impatient = choose(5) == 0;
+                me.node.with(|b| b.open(speer, None, OpenReq { tag, proto: PROTO.into(), send: vec![dial_request(&claimed, &addrs)], read: if impatient { 0 } else { 1 }, after: if impatient { After::Drop } else { After::Close } }));
+                if impatient {
+                    probe("impatient-request");
+                } else {
+                    pending.push(tag);
+                }
                 note("request");
             }
             if choose(3) == 0 {
@@ -171,10 +186,10 @@ fn autonat_server() -> SimResult {
         for (now, ev) in server.take_events_timed() {
             let SwarmEvent::Behaviour(autonat::Event::InboundProbe(ev)) = ev else { continue };
             match ev {
-                autonat::InboundProbeEvent::Request { peer, addresses, .. } => {
-                    let n = ongoing.entry(peer).or_insert(0);
-                    *n += 1;
-                    ensure!(*n <= 1, "C50/two-probes-for-one-peer", "a second dial-back for {peer} was started while one is still running");
+                autonat::InboundProbeEvent::Request { peer, addresses, probe_id } => {
+                    let set = ongoing.entry(peer).or_default();
+                    set.insert(format!("{probe_id:?}"));
+                    ensure!(set.len() <= 1, "C50/two-probes-for-one-peer", "a second dial-back for {peer} was started while one is still running ({set:?})");
                     accepted.push((now, peer));
                     let in_window: Vec<&(Duration, PeerId)> = accepted.iter().filter(|(t, _)| *t + period > now).collect();
                     ensure!(in_window.len() <= global_max, "C50/global-throttle", "{} probes accepted within {period:?}, throttle_clients_global_max is {global_max}", in_window.len());
@@ -188,22 +203,28 @@ fn autonat_server() -> SimResult {
                         ensure!(want_ip.map(|w| !found.is_empty() && found.iter().all(|i| i == w)).unwrap_or(false), "C50/dial-foreign-ip", "probe for {peer} (observed at {want_ip:?}) will dial {a}: every IP component must equal the observed IP");
                     }
                 }
-                autonat::InboundProbeEvent::Response { peer, .. } => {
-                    *ongoing.entry(peer).or_insert(1) -= 1;
+                autonat::InboundProbeEvent::Response { peer, probe_id, .. } => {
+                    ongoing.entry(peer).or_default().remove(&format!("{probe_id:?}"));
                 }
-                autonat::InboundProbeEvent::Error { peer, error, .. } => {
-                    // errors of refused requests never had a probe in progress
-                    let had = ongoing.get(&peer).copied().unwrap_or(0) > 0;
-                    let refusal = matches!(&error, autonat::InboundProbeError::Response(autonat::ResponseError::DialRefused | autonat::ResponseError::BadRequest));
-                    if refusal {
+                autonat::InboundProbeEvent::Error { peer, error, probe_id } => {
+                    // errors of refused requests carry a fresh probe id that never was in progress
+                    if matches!(&error, autonat::InboundProbeError::Response(autonat::ResponseError::DialRefused | autonat::ResponseError::BadRequest)) {
                         refused += 1;
-                    } else if had {
-                        *ongoing.get_mut(&peer).unwrap() -= 1;
                     }
+                    ongoing.entry(peer).or_default().remove(&format!("{probe_id:?}"));
                 }
             }
         }
         // ---- what the server's transport was asked to dial
+        // at most one dial-back to a peer in flight at the transport, unless a connection reset intervened
+        let inflight: Vec<(u64, Multiaddr)> = net::with_net(|n| n.dials.iter().filter(|d| d.node == server.idx && d.first_poll.is_some() && d.done.is_none() && !d.dropped_unfinished).map(|d| (d.created_seq, d.addr.clone())).collect());
+        for (ci, a) in &inflight {
+            for (cj, b) in &inflight {
+                if cj > ci && a.iter().last() == b.iter().last() && !resets.iter().any(|r| ci < r && r < cj) {
+                    return Err(violation!("C50/two-dial-backs-in-flight", "the server's transport has two dial-backs to the same peer in flight: {a} and {b} (no connection was reset in between)"));
+                }
+            }
+        }
         let recs: Vec<Multiaddr> = net::with_net(|n| n.dials.iter().filter(|d| d.node == server.idx).map(|d| d.addr.clone()).collect());
         for a in recs.iter().skip(dials_seen) {
             dialbacks += 1;
@@ -217,7 +238,7 @@ fn autonat_server() -> SimResult {
             ensure!(!a.iter().any(|p| matches!(p, Protocol::P2pCircuit)), "C50/dial-through-relay", "the server dialed back through a relay: {a}");
             let found = ips(a);
             ensure!(!found.is_empty() && found.iter().all(|i| i == want_ip), "C50/dial-foreign-ip", "the server dialed {a}; the requester {target} was observed at {want_ip}, every IP component must equal it");
-            ensure!(ongoing.get(&target).copied().unwrap_or(0) >= 1 || accepted.iter().any(|(_, p)| *p == target), "C50/dial-without-probe", "the server dialed {a} without an accepted probe of {target}");
+            ensure!(ongoing.get(&target).map(|s| !s.is_empty()).unwrap_or(false) || accepted.iter().any(|(_, p)| *p == target), "C50/dial-without-probe", "the server dialed {a} without an accepted probe of {target}");
         }
         dials_seen = recs.len();
         for c in &clients {
